@@ -270,6 +270,10 @@ def historical(run, n):
             for c in ("dem", "gop", "turnout"):
                 hist[f"results_{c}"] = (hist[f"baseline_{c}"] * rng.uniform(0.8, 1.2)).astype(int)
             below = list(e.cur.loc[e.cur["percent_expected_vote"] < e.threshold, "geographic_unit_fips"])
+            # an expected-vote figure computed from a ballot estimate can sit a hair below the threshold (199,999 of 200,000): still below
+            e.cur["percent_expected_vote"] = e.cur["percent_expected_vote"].astype(float)
+            for u in below[:2]:
+                e.cur.loc[e.cur["geographic_unit_fips"] == u, "percent_expected_vote"] = e.threshold * (1 - rng.choice([4e-6, 5e-7]))
             # the live feed arrives in its own order (not the order of the historical file) and with its own index
             feed = e.cur.sample(frac=1, random_state=rng.randint(0, 10**6)).reset_index(drop=True)
             hist = hist.sample(frac=1, random_state=rng.randint(0, 10**6)).reset_index(drop=True)
